@@ -462,6 +462,7 @@ type worker struct {
 	fnVals       []goja.Value
 	fails        map[string]*failRec
 	newVals      map[rkey]*value
+	clsCount     map[string]int
 	evals, skips int64
 	outcomes     map[[2]string]struct{}
 	noText       bool
@@ -550,7 +551,7 @@ func newWorker(r *core.Run) *worker {
 		showProg = goja.MustCompile("show", showHelper, false)
 		obsProg = goja.MustCompile("observers", observerSource, false)
 	})
-	w := &worker{run: r, u: u, rt: goja.New(), fails: map[string]*failRec{}, newVals: map[rkey]*value{}, outcomes: map[[2]string]struct{}{}}
+	w := &worker{run: r, u: u, rt: goja.New(), fails: map[string]*failRec{}, newVals: map[rkey]*value{}, clsCount: map[string]int{}, outcomes: map[[2]string]struct{}{}}
 	w.fromCharCode = mustFn(w.rt, "(function(){return String.fromCharCode.apply(null, arguments)})")
 	fac, err := w.rt.RunString(objFactories)
 	if err != nil {
@@ -689,7 +690,7 @@ func (w *worker) fail(idx int64, sig, what string, cs Case) {
 }
 
 // eval runs one application with all oracles; collect = remember new result representations for the next level.
-func (w *worker) eval(idx int64, op *Op, a, b *value, depth int, collect bool) {
+func (w *worker) eval(idx int64, op *Op, a, b *value, depth int, collect int) {
 	w.evalGot(idx, op, a, b, w.apply(op, a, b), depth, collect)
 }
 
@@ -708,7 +709,7 @@ const batchDriver = `(function(f, as, bs, sink){
 
 // evalBatch applies op to all items inside ONE call into the runtime (the operation itself is executed exactly as
 // in apply; only the Go<->JS transitions and the per-call stack allocation of the engine are saved).
-func (w *worker) evalBatch(op *Op, items []batchItem, depth int, collect bool) {
+func (w *worker) evalBatch(op *Op, items []batchItem, depth int, collect int) {
 	if len(items) == 0 {
 		return
 	}
@@ -760,7 +761,7 @@ func excValueName(v goja.Value) string {
 	return "throw " + v.String()
 }
 
-func (w *worker) evalGot(idx int64, op *Op, a, b *value, got outcome, depth int, collect bool) {
+func (w *worker) evalGot(idx int64, op *Op, a, b *value, got outcome, depth int, collect int) {
 	exp, modelled := w.model(op, a, b)
 	w.evals++
 	if !modelled {
@@ -792,8 +793,22 @@ func (w *worker) evalGot(idx int64, op *Op, a, b *value, got outcome, depth int,
 		w.outcomes[oc] = struct{}{}
 		w.run.Outcome(oc[0] + "|" + oc[1])
 	}
-	if !collect || got.thrown != "" || got.key.tag >= tObject {
+	if collect == collectNone || got.thrown != "" || got.key.tag >= tObject {
 		return
+	}
+	if collect == collectCapped {
+		// bounded memory at the deep levels: only Numbers, and per class only the capK first-reached ones
+		// (chunks reach a worker in increasing index order, so these are its capK smallest indices of the class)
+		if got.m.K != nm.Number {
+			return
+		}
+		if _, ok := w.newVals[got.key]; !ok {
+			c := numRepClass(got.key, got.m.N)
+			if w.clsCount[c] >= capK {
+				return
+			}
+			w.clsCount[c]++
+		}
 	}
 	if nv, ok := w.newVals[got.key]; ok {
 		if idx < nv.first {
@@ -808,6 +823,28 @@ func (w *worker) evalGot(idx int64, op *Op, a, b *value, got outcome, depth int,
 		nv.gs = got.val.String()
 	}
 	w.newVals[got.key] = nv
+}
+
+const (
+	collectNone = iota
+	collectAll
+	collectCapped
+	capK = 40
+)
+
+// numRepClass: coarse class of a Number representation (tag, canonical or not, magnitude class, exact small values)
+func numRepClass(k rkey, f float64) string {
+	c := numClass(f)
+	if a := math.Abs(f); a == 0.5 || a == 1 || a == 1.5 || a == 2 {
+		c = nm.ShowNum(f)
+	}
+	if ok, _ := canonical(k); !ok {
+		c += " noncanonical"
+	}
+	if k.tag == tInt {
+		return "int " + c
+	}
+	return "float " + c
 }
 
 func mkExpr(op *Op, a, b *value) *Expr {
@@ -842,7 +879,7 @@ type explorer struct {
 }
 
 // runJobs evaluates all jobs in parallel; new representations are merged deterministically. Returns false if cut.
-func (ex *explorer) runJobs(jobs []job, depth int, collect bool, label string) (newVals []*value, complete bool) {
+func (ex *explorer) runJobs(jobs []job, depth int, collect int, label string) (newVals []*value, complete bool) {
 	offs := make([]int64, len(jobs)+1)
 	for i := range jobs {
 		offs[i+1] = offs[i] + jobs[i].size()
@@ -895,21 +932,35 @@ func (ex *explorer) runJobs(jobs []job, depth int, collect bool, label string) (
 		ex.r.NontrivialN(w.evals - w.skips)
 		ex.r.Add("unmodelled_skipped", w.skips)
 		w.evals, w.skips = 0, 0
-		for k, nv := range w.newVals {
-			if _, ok := ex.known[k]; ok {
-				continue
-			}
-			if old, ok := merged[k]; !ok || nv.first < old.first {
-				merged[k] = nv
+		if complete { // the values of a level that was cut are not needed: the next level does not run
+			for k, nv := range w.newVals {
+				if _, ok := ex.known[k]; ok {
+					continue
+				}
+				if old, ok := merged[k]; !ok || nv.first < old.first {
+					merged[k] = nv
+				}
 			}
 		}
 		w.newVals = map[rkey]*value{}
+		w.clsCount = map[string]int{}
 		ex.mergeWorkerFails(w)
 	}
 	for _, nv := range merged {
 		newVals = append(newVals, nv)
 	}
 	sort.Slice(newVals, func(i, j int) bool { return newVals[i].first < newVals[j].first })
+	if collect == collectCapped {
+		cnt := map[string]int{}
+		kept := newVals[:0]
+		for _, nv := range newVals {
+			if c := numRepClass(nv.key, nv.m.N); cnt[c] < capK {
+				cnt[c]++
+				kept = append(kept, nv)
+			}
+		}
+		newVals = kept
+	}
 	for _, nv := range newVals {
 		nv.prep()
 		ex.known[nv.key] = nv
@@ -1117,7 +1168,7 @@ func run(r *core.Run) {
 			jobs = append(jobs, job{op: op, A: leaves, B: P}, job{op: op, A: P, B: notP}, job{op: op, A: scalarsNotP, B: scalarsNotP})
 		}
 	}
-	new1, ok := ex.runJobs(jobs, 1, true, "depth1")
+	new1, ok := ex.runJobs(jobs, 1, collectAll, "depth1")
 	new1 = append(consts, new1...)
 	nums1 := filter(new1, func(v *value) bool { return v.m.K == nm.Number })
 	strs1 := filter(new1, func(v *value) bool { return v.m.K == nm.String })
@@ -1138,7 +1189,7 @@ func run(r *core.Run) {
 
 	// 5. level 2 (operands of depth 1 are the distinct value representations reached there)
 	if ok {
-		rep1 := representatives(new1, r.Pick(2, 6))
+		rep1 := representatives(new1, r.Pick(2, 3))
 		strRep1, strRep2 := representatives(strs1, 1), representatives(strs1, 2)
 		partners := P
 		if r.Thorough() {
@@ -1165,7 +1216,11 @@ func run(r *core.Run) {
 				jobs = append(jobs, job{op: op, A: rep1, B: partners}, job{op: op, A: partners, B: rep1}, job{op: op, A: rep1, B: rep1})
 			}
 		}
-		new2, ok2 := ex.runJobs(jobs, 2, r.Thorough(), "depth2")
+		collect2 := collectNone
+		if r.Thorough() {
+			collect2 = collectCapped
+		}
+		new2, ok2 := ex.runJobs(jobs, 2, collect2, "depth2")
 		if r.Thorough() {
 			ex.bounds["depth 2"] = fmt.Sprintf("every deep operation; unary: all %d depth-1 values; binary: all %d numeric depth-1 values x (all %d leaves and %d class representatives of depth-1 values) in both positions, string-valued depth-1 results by class representative; complete=%v",
 				len(new1), len(nums1), len(partners), len(rep1), ok2)
@@ -1191,8 +1246,8 @@ func run(r *core.Run) {
 				}
 				jobs = append(jobs, job{op: op, A: rep2, B: P}, job{op: op, A: P, B: rep2}, job{op: op, A: rep2, B: rep1}, job{op: op, A: rep1, B: rep2})
 			}
-			_, ok3 := ex.runJobs(jobs, 3, false, "depth3")
-			ex.bounds["depth 3 (pruned)"] = fmt.Sprintf("unary deep operations on all %d numeric depth-2 values; binary deep operations on %d class representatives of depth-2 values x (partner pool + depth-1 representatives), both positions; complete=%v", len(nums2), len(rep2), ok3)
+			_, ok3 := ex.runJobs(jobs, 3, collectNone, "depth3")
+			ex.bounds["depth 3 (pruned)"] = fmt.Sprintf("unary deep operations on %d numeric depth-2 values (the first 40 reached of every representation class); binary deep operations on %d class representatives of depth-2 values x (partner pool + depth-1 representatives), both positions; complete=%v", len(nums2), len(rep2), ok3)
 			complete = complete && ok3
 		}
 	}
